@@ -18,7 +18,7 @@ CONSTRAINT Emit
 CHECK_DEADLOCK FALSE
 """
 TRACE_CFG = """SPECIFICATION TraceSpec
-CONSTANTS MaxNodes = 0 MaxPert = 0 Rich = FALSE MaxBad = 4000
+CONSTANTS MaxNodes = 0 MaxPert = 0 Rich = FALSE MaxBad = 20000
 CHECK_DEADLOCK FALSE
 POSTCONDITION Post
 """
@@ -132,10 +132,10 @@ def main(ctx):
     if ctx.quick:
         sim = tlc_cases(ctx, 7, 3, True, 6, simulate="num=120", depth=14)
     else:
-        cases += tlc_cases(ctx, 4, 1, False, 0)
+        cases += tlc_cases(ctx, 4, 1, False, 24)
         cases += tlc_cases(ctx, 3, 2, False, 16)
         ctx.cov["model_pairs_exhaustive"] = len(cases)
-        sim = tlc_cases(ctx, 7, 3, True, 10, simulate="num=4000", depth=14)
+        sim = tlc_cases(ctx, 7, 3, True, 8, simulate="num=2000", depth=14)
     ctx.cov["model_pairs_simulated"] = len(sim)
     cases += sim
     for k, c in enumerate(cases):
@@ -144,7 +144,7 @@ def main(ctx):
     verif.write_ndjson(cp, cases)
     # seeded random pairs beyond the model's alphabets
     ab = ctx.build("altops")
-    nrand = 2500 if ctx.quick else 60000
+    nrand = 2500 if ctx.quick else 40000
     with open(cp, "ab") as f:
         ctx.run([ab, "diffrand", "-n", str(nrand)], stdout=f)
     ctx.cov["random_pairs"] = nrand
@@ -153,7 +153,14 @@ def main(ctx):
         ctx.add(r["api"], r["kind"], r["locus"], r["witness"], case=r["case"], detail=r.get("detail"))
     for c in cases[5::max(1, len(cases) // 5)]:
         ctx.sample({"a": show(c["a"]), "b": show(c["b"]), "ignore_sets": len(c["igs"])})
-    ctx.cov["distinct_nontrivial"] = len(cases) + nrand
+    # measured: distinct pairs whose two sides differ (the a = b pairs only exercise "Diff is empty")
+    seen = set()
+    with open(cp) as f:
+        for line in f:
+            c = json.loads(line)
+            if c["a"] != c["b"]:
+                seen.add(json.dumps([c["a"], c["b"]], sort_keys=True))
+    ctx.cov["distinct_nontrivial"] = len(seen)
     ctx.cov["rule"] = ("pairs (a, b) = every state of the perturbation phase of Diff.tla (base trees built node by node up to "
                        "MaxNodes, then 1..MaxPert perturbations: leaf same kind/other kind, int<->equal float, null<->absent "
                        "member, array tail insert/delete, member insert/delete, subtree replacement), exhaustive for small "
@@ -161,7 +168,7 @@ def main(ctx):
                        "ignore-path sets of IgnSets (none, every location, wildcard variants, sibling indexes, pairs; pairs in "
                        "both orders); plus seeded random pairs. Each is replayed on simple data (mixed Go integer widths, "
                        "float32 where exact) and gen data, Diff and Compare in both argument orders, Match both ways. "
-                       "distinct_nontrivial = number of distinct pairs; observations = Diff+Compare result pairs judged by TLC.")
+                       "distinct_nontrivial = number of distinct pairs (a, b) with a different from b; observations = Diff+Compare result pairs judged by TLC.")
     ctx.assumptions += [
         "int versus numerically equal float may or may not be reported (numeric width is read either way)",
         "differences covered by an ignore path may or may not be returned; completeness is not demanded where an ignore path reaches below the differing location",
